@@ -22,6 +22,16 @@ well-formed value (`Value.wt`: well-formed type without optional-attribute
 annotations, payload of that type) and a well-formed target type without
 DynamicPseudoType.  Targets with placeholders need laws of `unify` that belong to
 C09; what is known to fail there is kept as `def … : Prop` + counterexample.
+
+Second deepening (d08b) — statements that need NO `RegularPair` (any target, placeholders included):
+* marks: `convert_commutes_with_unmarkDeep` (+ `_failures`, `_converse`, `conversion_…`): conversion
+  commutes with `UnmarkDeep` for every value with well-formed marker layers; `deep_marks_kept_partial`:
+  no mark is lost at any depth by the element-wise conversions (`DeepMarksKept` is false by design);
+* the frontier of the recorded findings: `empty_collection_resolves_direct_placeholder`,
+  `unknown_null_resolve_placeholders_partial` (unknown and null inputs DO resolve placeholders),
+  `result_resolves_placeholders_unknown_length_counterexample`, `idempotent_counterexample`,
+  `conforming_converts_to_itself_counterexample` / `_partial`, `idempotent_spelled_out_partial`;
+* unknown sets: `unknown_set_to_set_lower_bound` (+ `_needed`); round trip `roundtrip_set_list_set_partial`.
 -/
 import CtyModel.Lemmas.ConvertUnknown
 import CtyModel.Lemmas.ConvertTotal
@@ -37,6 +47,11 @@ import CtyModel.Lemmas.ConvertD08Fuel
 import CtyModel.Lemmas.ConvertD08Covers
 import CtyModel.Lemmas.ConvertD08Roundtrip
 import CtyModel.Lemmas.ConvertD08CoversColl
+import CtyModel.Lemmas.d08bUnmark
+import CtyModel.Lemmas.d08bFrontier
+import CtyModel.Lemmas.d08bKept
+import CtyModel.Lemmas.d08bSetRT
+import CtyModel.Lemmas.d08bConform
 namespace CtyModel
 namespace C08
 open Convert Ty
@@ -120,6 +135,73 @@ theorem resultResolvesPlaceholders_false : ¬ ResultResolvesPlaceholders := by
   revert this
   decide
 
+/-! ### the frontier of `ResultResolvesPlaceholders`
+
+Where exactly an empty collection does and does not resolve a placeholder, and the second recorded
+shape (a set whose length is unknown). -/
+
+/-- What does hold for EMPTY collections, for every environment, fuel and element type: a placeholder
+that IS the element type of the target is replaced by the input's element type (list → list,
+set → list, set → set, map → map; list → set in unsafe mode).  Only placeholders NESTED inside the
+element type come back (`result_resolves_placeholders_counterexample`). -/
+theorem empty_collection_resolves_direct_placeholder (E : Env) (fuel : Nat) (ie : Ty) (h : ie.isDyn = false) :
+    convert E (fuel + 2) ⟨.list ie, .seq []⟩ (.list .dyn) = .ok ⟨.list ie, .seq []⟩ ∧
+    convert E (fuel + 2) ⟨.set ie, .sset [] []⟩ (.list .dyn) = .ok ⟨.list ie, .seq []⟩ ∧
+    convert E (fuel + 2) ⟨.set ie, .sset [] []⟩ (.set .dyn) = .ok ⟨.set ie, .sset [] []⟩ ∧
+    convert E (fuel + 2) ⟨.list ie, .seq []⟩ (.set .dyn) = .ok ⟨.set ie, .sset [] []⟩ ∧
+    convert E (fuel + 2) ⟨.map ie, .smap [] []⟩ (.map .dyn) = .ok ⟨.map ie, .smap [] []⟩ := by
+  cases ie <;> first | (simp [Ty.isDyn] at h; done) | exact ⟨rfl, rfl, rfl, rfl, rfl⟩
+
+/-- the second recorded witness (`set-unknown-length-keeps-nested-placeholder`): a set holding an
+unknown member has an unknown number of elements, so its conversion to a list is an unknown list —
+of the target's element type AS WRITTEN, `set(placeholder)`, although the input's element type
+`list(string)` has no placeholder.  In the driver's environment too. -/
+theorem result_resolves_placeholders_unknown_length_counterexample :
+    Value.wt ⟨.set (.list .string), .sset [1, 2] [.seq [.s "a"], .unk .unref]⟩ = true ∧
+    convert Env.simple 4 ⟨.set (.list .string), .sset [1, 2] [.seq [.s "a"], .unk .unref]⟩ (.list (.set .dyn)) =
+      .ok ⟨.list (.set .dyn), .unk .unref⟩ ∧
+    convert driverEnv 4 ⟨.set (.list .string), .sset [1, 2] [.seq [.s "a"], .unk .unref]⟩ (.list (.set .dyn)) =
+      .ok ⟨.list (.set .dyn), .unk .unref⟩ ∧
+    resolvedIn (.set (.list .string)) (.list (.set .dyn)) = false := by
+  refine ⟨by decide, rfl, rfl, by decide⟩
+
+/-- UNKNOWN AND NULL INPUTS DO RESOLVE PLACEHOLDERS — unlike empty known collections.  An unmarked
+unknown or null value whose type has no placeholder, converted by any conversion `GetConversion*`
+returned to a target of the same shape (`D08B.covered`: lists / sets against lists / sets, maps against
+maps, tuples against tuples of the same length, objects against objects or maps, at every depth —
+the pairs for which `dynamicReplace` does not consult `unify`; placeholders anywhere in the
+target), comes back with a type WITHOUT any placeholder: each one was filled from the input's type.
+For every environment and fuel. -/
+theorem unknown_null_resolve_placeholders_partial (E : Env) (fuel : Nat) (uns : Bool) (want : Ty) (p : Plan)
+    (v r : Value) (hg : getConv E v.ty want uns = some p) (hm : v.isMarked = false)
+    (hl : (!v.isKnown || v.isNull) = true) (hod : want.isDyn = false) (hd : Ty.hasDyn v.ty = false)
+    (hc : D08B.covered v.ty want.stripOpt = true) (h : apply E (fuel + 1) p v = .ok r) :
+    Ty.hasDyn r.ty = false ∧ resolvedIn v.ty r.ty = true := by
+  obtain ⟨c, _, rfl⟩ := Option.map_eq_some_iff.mp hg
+  have key : Ty.hasDyn r.ty = false := by
+    simp only [apply, applyStep, hm, hod, hl, Bool.false_eq_true, if_false, if_true] at h
+    cases hdr : dynRepl E v.ty want.stripOpt with
+    | ok t =>
+      have ht := D08B.dynRepl_noDyn E v.ty want.stripOpt t hd hc hdr
+      rw [hdr] at h
+      simp only at h
+      split at h
+      · obtain ⟨rng, _, h⟩ := Convert.Res.bind_eq_ok h
+        rw [prepareUnknownResult_ty h]; exact ht
+      · simp at h; subst h; exact ht
+    | err _ => rw [hdr] at h; simp at h
+    | panic _ => rw [hdr] at h; simp at h
+    | unmodelled => rw [hdr] at h; simp at h
+  exact ⟨key, resolvedIn_noDyn _ _ key⟩
+
+/-- the contrast with `result_resolves_placeholders_counterexample`: the UNKNOWN and the NULL list of maps
+of bools, converted to list(map(placeholder)), are a list(map(bool)) — the empty known list is not -/
+example : D08B.covered (.list (.map .bool)) (.list (.map .dyn)) = true := by decide
+example : convert Env.simple 4 ⟨.list (.map .bool), .unk .unref⟩ (.list (.map .dyn)) =
+    .ok ⟨.list (.map .bool), .unk (.coll .u 0 9223372036854775807)⟩ := rfl
+example : convert Env.simple 4 ⟨.list (.map .bool), .null⟩ (.list (.map .dyn)) =
+    .ok ⟨.list (.map .bool), .null⟩ := rfl
+
 /-! ## Identity and idempotence -/
 
 /-- Converting a value to its own type (disregarding annotations of the target)
@@ -140,6 +222,139 @@ theorem identity_own_type (E : Env) (fuel : Nat) (v : Value) (hw : Value.wt v = 
 theorem idempotent_partial (E : Env) (hU : UnifyLaws E) (fuel fuel' : Nat) (v r : Value) (want : Ty)
     (hp : RegularPair v want) (h : convert E fuel v want = .ok r) : convert E fuel' r want = .ok r :=
   convert_idempotent hU hp h
+
+/-- Full statement of idempotence, placeholders in the target included.  FALSE of the code — see
+`idempotent_counterexample` (recorded finding `idempotent / empty-collection-keeps-nested-placeholder`). -/
+def Idempotent : Prop :=
+  ∀ (E : Env) (fuel fuel' : Nat) (v r : Value) (want : Ty), UnifyLaws E → Value.wt v = true → want.wf = true →
+    convert E fuel v want = .ok r → convert E fuel' r want = .ok r ∨ convert E fuel' r want = .unmodelled
+
+/-- the witness, in the driver's environment: a tuple of two maps of lists of strings, the second
+EMPTY, converted to list(map(list(placeholder))).  The first conversion unifies the element types
+(`map(list(string))` and the empty map's `map(list(placeholder))`) to `map(list(string))` and
+succeeds; its result conforms to the target; converting the result AGAIN fails, because the empty
+map now takes the target's element type as written and no longer matches its neighbour. -/
+theorem idempotent_counterexample :
+    convert driverEnv 16 ⟨.tuple [.map (.list .string), .map (.list .string)],
+        .seq [.smap ["m"] [.seq [.s "x"]], .smap [] []]⟩ (.list (.map (.list .dyn))) =
+      .ok ⟨.list (.map (.list .string)), .seq [.smap ["m"] [.seq [.s "x"]], .smap [] []]⟩ ∧
+    conformsTo (.list (.map (.list .dyn)))
+      ⟨.list (.map (.list .string)), .seq [.smap ["m"] [.seq [.s "x"]], .smap [] []]⟩ = true ∧
+    convert driverEnv 16 ⟨.list (.map (.list .string)), .seq [.smap ["m"] [.seq [.s "x"]], .smap [] []]⟩
+        (.list (.map (.list .dyn))) = .err "element types must all match for conversion to list" := by
+  refine ⟨rfl, by decide, rfl⟩
+
+theorem idempotent_false : ¬ Idempotent := by
+  intro h
+  have := h driverEnv 16 16 _ _ _ (Unify.unifyLaws_std (Env.concrete Unify.unifyTy)) (by decide) (by decide) idempotent_counterexample.1
+  rw [idempotent_counterexample.2.2] at this
+  simp at this
+
+/-- Full statement of "a value that already conforms to the requested type converts to itself",
+placeholders in the target included, for values without unknown parts (an unknown converts to an
+unknown that admits it but may carry weaker length bounds).  FALSE of the code — see
+`conforming_converts_to_itself_counterexample`; for targets without placeholders conformance is
+equality of types up to annotations and `identity` applies. -/
+def ConformingConvertsToItself : Prop :=
+  ∀ (E : Env) (fuel : Nat) (v : Value) (want : Ty), UnifyLaws E → Value.wt v = true → want.wf = true →
+    Payload.whollyKnown v.v = true → conformsTo want v = true →
+    convert E fuel v want = .ok v ∨ convert E fuel v want = .unmodelled
+
+/-- the witness (the consequence of `empty-collection-keeps-nested-placeholder` recorded under
+`idempotent`): a list of two lists of maps, the first EMPTY, conforms to list(list(map(placeholder)))
+but does not convert to it — the empty member becomes a `list(map(placeholder))`, its neighbour a
+`list(map(bool))`, and `ListVal` refuses the mixture.  An error, in every fuel ≥ 4 and in the
+driver's environment too. -/
+theorem conforming_converts_to_itself_counterexample :
+    Value.wt ⟨.list (.list (.map .bool)), .seq [.seq [], .seq [.smap ["k"] [.b true]]]⟩ = true ∧
+    conformsTo (.list (.list (.map .dyn)))
+      ⟨.list (.list (.map .bool)), .seq [.seq [], .seq [.smap ["k"] [.b true]]]⟩ = true ∧
+    convert Env.simple 8 ⟨.list (.list (.map .bool)), .seq [.seq [], .seq [.smap ["k"] [.b true]]]⟩
+      (.list (.list (.map .dyn))) = .err "element types must all match for conversion to list" ∧
+    convert driverEnv 8 ⟨.list (.list (.map .bool)), .seq [.seq [], .seq [.smap ["k"] [.b true]]]⟩
+      (.list (.list (.map .dyn))) = .err "element types must all match for conversion to list" := by
+  refine ⟨by decide, by decide, rfl, rfl⟩
+
+theorem conformingConvertsToItself_false : ¬ ConformingConvertsToItself := by
+  intro h
+  have := h Env.simple 8 ⟨.list (.list (.map .bool)), .seq [.seq [], .seq [.smap ["k"] [.b true]]]⟩
+    (.list (.list (.map .dyn))) unifyLaws_simple (by decide) (by decide) (by decide)
+    conforming_converts_to_itself_counterexample.2.1
+  rw [conforming_converts_to_itself_counterexample.2.2.1] at this
+  simp at this
+
+/-- What does hold, placeholders anywhere in the target: on lists, maps and tuples nested to any depth
+over primitive leaves, a value that conforms to the target and is SPELLED OUT wherever the target is
+(`D08B.solidFor`: a primitive of the same type, a NON-EMPTY list / map of such members, or a tuple of
+such members against a tuple type of the same length; anything unmarked below a placeholder of the
+target) converts to itself — for every environment satisfying
+`UnifyLaws`, every fuel (or the model runs out of fuel), by induction over the plans
+`getConversionKnown` builds for such pairs.  The empty collection is exactly what the hypothesis
+excludes, and `conforming_converts_to_itself_counterexample` shows it cannot be dropped. -/
+theorem conforming_converts_to_itself_partial (E : Env) (hU : UnifyLaws E) (fuel : Nat) (inT want : Ty)
+    (p : Payload) (hw : wf inT = true) (hd : hasDyn inT = false) (ho : hasOpt inT = false)
+    (hs : D08B.solidFor want inT p = true)
+    (hg : (getConv E inT want true).isSome = true ∨ inT.equals want.stripOpt = true) :
+    convert E fuel ⟨inT, p⟩ want = .ok ⟨inT, p⟩ ∨ convert E fuel ⟨inT, p⟩ want = .unmodelled := by
+  unfold convert convertWith
+  split
+  · exact .inl rfl
+  · rename_i hne
+    rcases hg with hg | hg
+    · obtain ⟨q, hq⟩ := Option.isSome_iff_exists.mp hg
+      obtain ⟨c, hc, rfl⟩ := Option.map_eq_some_iff.mp hq
+      simp only [hq]
+      rcases D08B.conf_apply hU want inT true c hc hw hd ho p hs fuel with h | h
+      · exact .inr h
+      · exact .inl h
+    · exact absurd hg hne
+
+/-- … hence idempotence on that fragment: if the result of a conversion is spelled out wherever the
+target is, converting it again returns it. -/
+theorem idempotent_spelled_out_partial (E : Env) (hU : UnifyLaws E) (fuel fuel' : Nat) (v r : Value) (want : Ty)
+    (_h : convert E fuel v want = .ok r) (hw : wf r.ty = true) (hd : hasDyn r.ty = false)
+    (ho : hasOpt r.ty = false) (hs : D08B.solidFor want r.ty r.v = true)
+    (hg : (getConv E r.ty want true).isSome = true ∨ r.ty.equals want.stripOpt = true) :
+    convert E fuel' r want = .ok r ∨ convert E fuel' r want = .unmodelled :=
+  conforming_converts_to_itself_partial E hU fuel' r.ty want r.v hw hd ho hs hg
+
+/-- … and `ResultResolvesPlaceholders` on that fragment: a spelled-out (in particular NON-EMPTY at every
+level) list / map / tuple nest resolves every placeholder of the target, nested ones included — the result is
+the value itself, whose type has none. -/
+theorem result_resolves_placeholders_spelled_out_partial (E : Env) (hU : UnifyLaws E) (fuel : Nat)
+    (inT want : Ty) (p : Payload) (r : Value) (hw : wf inT = true) (hd : hasDyn inT = false)
+    (ho : hasOpt inT = false) (hs : D08B.solidFor want inT p = true)
+    (h : convert E fuel ⟨inT, p⟩ want = .ok r) : r = ⟨inT, p⟩ ∧ resolvedIn inT r.ty = true := by
+  have hg : (getConv E inT want true).isSome = true ∨ inT.equals want.stripOpt = true := by
+    unfold convert convertWith at h
+    split at h
+    · exact .inr ‹_›
+    · split at h
+      · simp at h
+      · rename_i q hq; exact .inl (by simp [hq])
+  rcases conforming_converts_to_itself_partial E hU fuel inT want p hw hd ho hs hg with h1 | h1
+  · rw [h1] at h
+    simp at h; subst h
+    exact ⟨rfl, resolvedIn_noDyn _ _ hd⟩
+  · rw [h1] at h; simp at h
+
+/-- the hypotheses are satisfiable by a nested value and a nested placeholder; the witness of the
+counterexample fails exactly `solidFor` (its first member is an empty list) -/
+example : D08B.solidFor (.list (.list (.map .dyn))) (.list (.list (.map .bool)))
+    (.seq [.seq [.smap ["j"] [.b false]], .seq [.smap ["k"] [.b true]]]) = true := by decide
+example : (getConv Env.simple (.list (.list (.map .bool))) (.list (.list (.map .dyn))) true).isSome = true := by decide
+example : D08B.solidFor (.list (.list (.map .dyn))) (.list (.list (.map .bool)))
+    (.seq [.seq [], .seq [.smap ["k"] [.b true]]]) = false := by decide
+example : D08B.solidFor (.tuple [.list .dyn, .string]) (.tuple [.list .number, .string])
+    (.seq [.seq [.n (.fin false 1 0 512)], .s "x"]) = true := by decide
+example : convert Env.simple 8 ⟨.tuple [.list .number, .string], .seq [.seq [.n (.fin false 1 0 512)], .s "x"]⟩
+    (.tuple [.list .dyn, .string]) =
+    .ok ⟨.tuple [.list .number, .string], .seq [.seq [.n (.fin false 1 0 512)], .s "x"]⟩ := rfl
+
+/-- the same two lists without the empty one convert to themselves: the failure needs the empty member -/
+example : convert Env.simple 8 ⟨.list (.list (.map .bool)), .seq [.seq [.smap ["j"] [.b false]], .seq [.smap ["k"] [.b true]]]⟩
+    (.list (.list (.map .dyn))) =
+    .ok ⟨.list (.list (.map .bool)), .seq [.seq [.smap ["j"] [.b false]], .seq [.smap ["k"] [.b true]]]⟩ := rfl
 
 /-! ## Unknown and null inputs -/
 
@@ -201,6 +416,44 @@ theorem unknown_sound_partial (E : Env) (hU : UnifyLaws E) (fuel : Nat) (uns : B
 unknown set of at least 2 strings becomes an unknown set of numbers with at least 1 member -/
 example : convert Env.simple 4 ⟨.set .string, .unk (.coll .u 2 3)⟩ (.set .number) =
     .ok ⟨.set .number, .unk (.coll .u 1 3)⟩ := rfl
+
+/-- UNKNOWN SET → SET: whatever length bounds the unknown set carries, the unknown set the conversion
+returns promises AT MOST ONE member as its lower bound (and none if the input may be empty), and
+its upper bound is no tighter than the input's — members may coalesce under the element
+conversion, never vanish, never multiply.  For every environment satisfying `UnifyLaws` (the
+driver's: `unifyLaws_driver`), every fuel, both modes.  The seeded change
+`C08-unknown-set-to-set-keeps-length-lower-bound` (copy the source's lower bound when the source is
+a set) contradicts this theorem for every input with lower bound ≥ 2. -/
+theorem unknown_set_to_set_lower_bound (E : Env) (hU : UnifyLaws E) (fuel : Nat) (uns : Bool) (v r : Value)
+    (ie oe : Ty) (p : Plan) (hty : v.ty = .set ie) (hp : RegularPair v (.set oe))
+    (hg : getConv E v.ty (.set oe) uns = some p) (hm : v.isMarked = false) (hk : v.isKnown = false)
+    (h : apply E (fuel + 1) p v = .ok r) :
+    r.ty = .set oe.stripOpt ∧ ∀ rf, r.v = .unk rf → lenLo rf ≤ 1 ∧
+      ∃ rng hi, Refine.range v = .ok rng ∧ rng.lengthUpperBound = .ok hi ∧ min hi Refine.maxInt ≤ lenHi rf := by
+  obtain ⟨hrt, rng, hrng, hrty, hall⟩ := unknown_sound_partial E hU fuel uns v r (.set oe) p hp hg hm hk h
+  refine ⟨hrt, fun rf hrf => ?_⟩
+  have hc : Refine.isCollectionTy v.ty = true := by rw [hty]; rfl
+  obtain ⟨lo, hi, hlo, hhi⟩ := D08B.lenBounds_defined rng (by rw [hrty]; exact hc)
+  have := ((hall rf hrf).2.1 lo hi oe.stripOpt hc hlo hhi).1 rfl
+  refine ⟨?_, rng, hi, hrng, hhi, this.2⟩
+  have h1 := this.1
+  split at h1 <;> omega
+
+/-- why the bound cannot be kept: in an environment whose member equivalence is exact
+(`D08B.envExact`) the unknown set of 2 to 3 strings admits the set {"1", "01"}, whose conversion to
+a set of numbers has ONE member; the result the code gives for the unknown (1 to 3 numbers) admits
+it, the result of the seeded change (2 to 3 numbers) does not. -/
+theorem unknown_set_to_set_lower_bound_needed :
+    Covers ⟨.set .string, .unk (.coll .u 2 3)⟩ ⟨.set .string, .sset [0, 0] [.s "1", .s "01"]⟩ = true ∧
+    convert D08B.envExact 4 ⟨.set .string, .sset [0, 0] [.s "1", .s "01"]⟩ (.set .number) =
+      .ok ⟨.set .number, .sset [0] [.n (.fin false 1 0 512)]⟩ ∧
+    convert D08B.envExact 4 ⟨.set .string, .unk (.coll .u 2 3)⟩ (.set .number) =
+      .ok ⟨.set .number, .unk (.coll .u 1 3)⟩ ∧
+    Covers ⟨.set .number, .unk (.coll .u 1 3)⟩ ⟨.set .number, .sset [0] [.n (.fin false 1 0 512)]⟩ = true ∧
+    Covers ⟨.set .number, .unk (.coll .u 2 3)⟩ ⟨.set .number, .sset [0] [.n (.fin false 1 0 512)]⟩ = false := by
+  refine ⟨by decide, rfl, rfl, by decide, by decide⟩
+
+example : UnifyLaws D08B.envExact := D08B.unifyLaws_exact
 
 /-! ### … stated with `Covers`, marked inputs included
 
@@ -337,6 +590,145 @@ theorem unknownCoversAll_false : ¬ UnknownCoversAll := by
 /-- a marked unknown number that is not null admits the marked known 1.5; so do the results -/
 example : Covers ⟨.number, .marked ["m"] (.unk (.num .f none none))⟩ ⟨.number, .n (.fin false 3 (-1) 53)⟩ = true := by
   decide
+
+/-! ## Marks do not influence a conversion (deep non-interference)
+
+`Value.MarksWF`: the marker layers of the value are as cty's constructors build them — never an
+empty mark set, never a marker directly inside a marker, no marker inside a set (`SetVal` moves
+them to the set).  No hypothesis on the environment, the target type (placeholders included), the
+fuel, or the depth of the value and of its marks. -/
+
+/-- **Converting commutes with `UnmarkDeep`**: if converting `v` — marked at any depth — returns `r`,
+then converting the deeply unmarked `v` (same fuel) returns the deeply unmarked `r`; and `r` again
+has well-formed marker layers (so the theorem composes). -/
+theorem convert_commutes_with_unmarkDeep (E : Env) (fuel : Nat) (v r : Value) (want : Ty)
+    (hw : v.MarksWF) (h : convert E fuel v want = .ok r) :
+    convert E fuel v.unmarkDeep want = .ok r.unmarkDeep ∧ r.MarksWF := by
+  obtain ⟨y, hy, rfl, hr⟩ := (D08B.convert_sim E fuel hw want).ok_inv h
+  exact ⟨hy, hr⟩
+
+/-- … and marks neither cause nor mask a failure: an error stays an error and a panic stays a panic
+when the marks are taken off first. -/
+theorem convert_commutes_with_unmarkDeep_failures (E : Env) (fuel : Nat) (v : Value) (want : Ty)
+    (hw : v.MarksWF) :
+    (∀ c, convert E fuel v want = .err c → ∃ c', convert E fuel v.unmarkDeep want = .err c') ∧
+    (∀ w, convert E fuel v want = .panic w → ∃ w', convert E fuel v.unmarkDeep want = .panic w') :=
+  ⟨fun _ h => (D08B.convert_sim E fuel hw want).err_inv h,
+   fun _ h => (D08B.convert_sim E fuel hw want).panic_inv h⟩
+
+/-- Conversely: if converting the deeply unmarked value returns `r0` (at some fuel), then converting
+the marked value, at any fuel at which the model finishes, returns a value whose deeply unmarked
+form is `r0` — it cannot fail, and cannot return anything else.  (The marked run needs one more unit
+of fuel per marker layer; that it finishes at all is `fuel_monotone` plus fuel adequacy.) -/
+theorem convert_commutes_with_unmarkDeep_converse (E : Env) (fuel fuel' : Nat) (v r0 : Value) (want : Ty)
+    (hw : v.MarksWF) (h0 : convert E fuel v.unmarkDeep want = .ok r0)
+    (hfin : convert E fuel' v want ≠ .unmodelled) :
+    ∃ r, convert E fuel' v want = .ok r ∧ r.unmarkDeep = r0 := by
+  have hs := D08B.convert_sim E fuel' hw want
+  have hne := hs.right_ne_unmodelled hfin
+  have h1 : convert E (max fuel fuel') v.unmarkDeep want = .ok r0 := by
+    rw [convert_mono E (Nat.le_max_left _ _) _ _ (by rw [h0]; simp), h0]
+  have h2 : convert E fuel' v.unmarkDeep want = .ok r0 := by
+    rw [← convert_mono E (Nat.le_max_right fuel fuel') _ _ hne, h1]
+  obtain ⟨x, hx, hr, _⟩ := hs.ok_inv_right hfin h2
+  exact ⟨x, hx, hr.symm⟩
+
+/-- The same for a conversion obtained from `GetConversion` / `GetConversionUnsafe`, applied to a
+value marked at any depth. -/
+theorem conversion_commutes_with_unmarkDeep (E : Env) (fuel : Nat) (uns : Bool) (inT want : Ty) (p : Plan)
+    (v r : Value) (hg : getConv E inT want uns = some p) (hw : v.MarksWF)
+    (h : apply E fuel p v = .ok r) : apply E fuel p v.unmarkDeep = .ok r.unmarkDeep ∧ r.MarksWF := by
+  obtain ⟨y, hy, rfl, hr⟩ := (D08B.getConv_sim E fuel hw hg).ok_inv h
+  exact ⟨hy, hr⟩
+
+/-- Every conversion `getConversionKnown` builds, in either mode and for every pair of types, holds as
+element / attribute conversions only "no conversion" or closures of `getConversion` (which take the
+marks off before they look at the value) — the structural reason for the theorems above. -/
+theorem plans_are_shaped (E : Env) (inT want : Ty) (uns : Bool) (p : Plan)
+    (hg : getConv E inT want uns = some p) : D08B.shaped p = true :=
+  (D08B.getConv_shaped hg).1
+
+/-- Where the marks of the result come from and where the top-level ones go: every mark at any depth of
+the result is a mark of the input (no invention), and every top-level mark of the input is a
+top-level mark of the result. -/
+theorem convert_marks_of_result (E : Env) (fuel : Nat) (v r : Value) (want : Ty)
+    (h : convert E fuel v want = .ok r) :
+    (∀ m ∈ r.marksDeep, m ∈ v.marksDeep) ∧ (∀ m ∈ v.marks, m ∈ r.marks) :=
+  ⟨D04C.convert_noinv E fuel v want r h, fun m hm => D04C.convert_top_kept E fuel v want r h m hm⟩
+
+/-! ### … and where the marks below the top go
+
+Full statement: every mark of the input, at any depth, is a mark of the result.  FALSE of the code, by
+design: a conversion to an object type drops the attributes (map → object: the keys) the target
+does not name, and their marks go with them — the result no longer depends on those values.  Not a
+finding.  What is proved: conversions that rebuild their input element by element (`D08B.keeps`)
+lose nothing. -/
+def DeepMarksKept : Prop :=
+  ∀ (E : Env) (fuel : Nat) (v r : Value) (want : Ty), Value.wt v = true → v.MarksWF →
+    convert E fuel v want = .ok r → ∀ m ∈ v.marksDeep, m ∈ r.marksDeep
+
+theorem deep_marks_kept_counterexample :
+    convert Env.simple 4 ⟨.object ["a", "b"] [.bool, .bool] [false, false],
+        .smap ["a", "b"] [.marked ["gone"] (.b true), .b false]⟩ (.object ["b"] [.bool] [false]) =
+      .ok ⟨.object ["b"] [.bool] [false], .smap ["b"] [.b false]⟩ := rfl
+
+theorem deepMarksKept_false : ¬ DeepMarksKept := by
+  intro h
+  have := h Env.simple 4 _ _ _ (by decide) ⟨by decide, by decide⟩ deep_marks_kept_counterexample "gone" (by decide)
+  revert this
+  decide
+
+/-- **No mark is lost, at any depth**, by a conversion `GetConversion*` returned whose plan is of the
+keeping kind — `getConversion`'s wrapper, primitive conversions, list / set / map rebuilding (maps of
+non-collections), tuple → tuple, tuple → set, at any nesting — applied to a well-typed value whose
+sets hold no marks, when the result type names no object type: every mark of the input is on the
+converted element at the corresponding position, or on the set it went into, or above.  Every
+environment and fuel.  (Outside this class — tuple → list, object sources, maps of collections,
+dynamic sources: searched by the harness predicate `marks_kept`.) -/
+theorem deep_marks_kept_partial (E : Env) (fuel : Nat) (p : Plan) (v r : Value)
+    (hk : D08B.keeps p = true) (hwt : wtP v.ty v.v = true) (hc : v.v.setsClean = true)
+    (h : apply E fuel p v = .ok r) (hno : D08B.noObj r.ty = true) :
+    ∀ m ∈ v.marksDeep, m ∈ r.marksDeep :=
+  fun m hm => D08B.apply_kept E fuel p v r hk h hno m (D08B.deep_subset_seen v.ty v.v m hwt hc hm)
+
+/-- … and by `Convert`, when the conversion it looks up is of that kind. -/
+theorem deep_marks_kept_convert_partial (E : Env) (fuel : Nat) (v r : Value) (want : Ty)
+    (hk : ∀ p, getConv E v.ty want true = some p → D08B.keeps p = true)
+    (hwt : wtP v.ty v.v = true) (hc : v.v.setsClean = true)
+    (h : convert E fuel v want = .ok r) (hno : D08B.noObj r.ty = true) :
+    ∀ m ∈ v.marksDeep, m ∈ r.marksDeep := by
+  unfold convert convertWith at h
+  split at h
+  · simp at h; subst h; exact fun _ hm => hm
+  · split at h
+    · simp at h
+    · rename_i p hp
+      exact deep_marks_kept_partial E fuel p v r (hk p hp) hwt hc h hno
+
+/-- the class is not empty: list(list(bool)) → list(set(string)) and tuple(bool, number) → set(string)
+are conversions of the keeping kind, and the marks of the elements end up on the sets -/
+example : (getConv Env.simple (.list (.list .bool)) (.list (.set .string)) true).all D08B.keeps = true := by decide
+example : (getConv Env.simple (.tuple [.bool, .number]) (.set .string) true).all D08B.keeps = true := by decide
+example : convert Env.simple 12 ⟨.list (.list .bool), .seq [.seq [.marked ["e"] (.b true)], .marked ["l"] (.seq [])]⟩
+      (.list (.set .string)) =
+    .ok ⟨.list (.set .string), .seq [.marked ["e"] (.sset [0] [.s "true"]), .marked ["l"] (.sset [] [])]⟩ := rfl
+
+/-- the hypotheses at work: an object with a marked list holding a marked
+element, converted to an object type with a set attribute — the element's mark moves up to the set,
+the list's mark stays, and taking all marks off first gives the result with all marks off -/
+def markedSample : Value :=
+  ⟨.object ["a", "b"] [.list .bool, .string] [false, false],
+   .marked ["top"] (.smap ["a", "b"] [.marked ["l"] (.seq [.b true, .marked ["e"] (.b false)]), .s "x"])⟩
+
+example : markedSample.MarksWF := ⟨by decide, by decide⟩
+example : convert Env.simple 12 markedSample (.object ["a"] [.set .string] [false]) =
+    .ok ⟨.object ["a"] [.set .string] [false],
+      .marked ["top"] (.smap ["a"] [.marked ["e", "l"] (.sset [0, 0] [.s "true", .s "false"])])⟩ := by
+  rfl
+example : convert Env.simple 12 markedSample.unmarkDeep (.object ["a"] [.set .string] [false]) =
+    .ok ⟨.object ["a"] [.set .string] [false],
+      .smap ["a"] [.sset [0, 0] [.s "true", .s "false"]]⟩ := by
+  rfl
 
 /-! ## No panic -/
 
@@ -548,7 +940,7 @@ theorem roundtrip_number_string_iff (E : Env) (fuel : Nat) (n : Num) :
     simp only [Res.ok.injEq, Value.mk.injEq, Payload.s.injEq, true_and] at hs
     subst hs
     rw [h2] at hm
-    obtain ⟨x, hx, hxm⟩ := Res.map_eq_ok hm
+    obtain ⟨x, hx, hxm⟩ := Convert.Res.map_eq_ok hm
     simp only [Value.mk.injEq, Payload.n.injEq, true_and] at hxm
     subst hxm
     simp [numTextExact, hx, he]
@@ -586,6 +978,23 @@ theorem roundtrip_tuple_list (E : Env) (hU : UnifyLaws E) (fuel : Nat) (T : Ty) 
     (hne : its ≠ []) (hall : ∀ it ∈ its, it = T) (hw : wtZip its ps = true) :
     convert E (fuel + 2) ⟨.tuple its, .seq ps⟩ (.list T) = .ok ⟨.list T, .seq ps⟩ :=
   tuple_to_list_same hU fuel T its ps hT hTo hTd hne hall hw
+
+/-- **set → list → set**: a wholly known set of a placeholder-free element type with unmarked members
+converts (safely) to the list of its members in iteration order, and converting that list back to
+the set type (an unsafe conversion) returns the ORIGINAL set — for every environment and every
+fuel ≥ 2.  `D08B.setCanon`, the one fact about `set.Set` this rests on, is a decidable side condition:
+rebuilding the set from its members in iteration order reproduces its payload (bucket ids = the
+members' hashes, insertion order inside a bucket); true of every set the library builds. -/
+theorem roundtrip_set_list_set_partial (E : Env) (fuel : Nat) (e : Ty) (ids : List Int) (ps : List Payload)
+    (he : wf e = true) (heo : hasOpt e = false) (hed : hasDyn e = false) (hne : ps ≠ [])
+    (hwk : Payload.whollyKnownL ps = true) (hcl : Payload.containsMarkedL ps = false)
+    (hcanon : D08B.setCanon E e ids ps) :
+    convert E (fuel + 2) ⟨.set e, .sset ids ps⟩ (.list e) = .ok ⟨.list e, .seq (setValues E e ps)⟩ ∧
+    convert E (fuel + 2) ⟨.list e, .seq (setValues E e ps)⟩ (.set e) = .ok ⟨.set e, .sset ids ps⟩ :=
+  D08B.set_list_set_same fuel e ids ps he heo hed hne hwk hcl hcanon
+
+/-- the side condition is satisfiable: {"a", "b"} in the simple environment -/
+example : D08B.setCanon Env.simple .string [0, 0] [.s "a", .s "b"] := rfl
 
 /-- object → map → object: an object whose attributes all have the placeholder-free
 type `T` (and hold no null) converts to `map(T)` with the same keys and members, and
